@@ -1,9 +1,200 @@
-import SigmaVerif.Model.Filter
+import SigmaVerif.Lemmas.Filter
+/-!
+# C11 — a filter is applied to the rules it is meant for, and its condition is spliced in intact
+
+Property theorems only; the proofs are in `SigmaVerif/Lemmas/Filter.lean`.
+
+* applicability: `applies_not_correlation`, `applies_iff`, `covers_iff` (+ `covers_refl`,
+  `covers_trans`, `covers_empty`)
+* the token scan on the canonical spelling renames exactly the names: `rewrite_pp`
+* the renamed condition means the same over the renamed detections: `rewrite_keeps_keywords`
+  (+ `rewrite_keeps_keywords_open`, `rewrite_keeps_shape`), and the finding D10c
+  `rewrite_them_captures_underscore`
+* no capture: `rule_selector_never_captures`, `filter_selector_never_captures`, and the finding D10b
+  `rule_underscore_selector_captures`
+-/
 namespace SigmaVerif.Props.C11
-open SigmaVerif.Filter
+open SigmaVerif.Cond SigmaVerif.CondSpec SigmaVerif.Filter
+open SigmaVerif.Lemmas.Filter (NamesOK hasOpen)
+
+/-! ## 1. Applicability -/
 
 /-- a filter never applies to a correlation rule -/
 theorem applies_not_correlation (fl : LogSource) (fr : RuleList) (r : RuleInfo) (h : r.isCorrelation = true) :
     applies fl fr r = false := by simp [applies, h]
+
+example : applies ⟨none, none, none⟩ .any ⟨true, ⟨some "x".toList, none, none⟩, []⟩ = false :=
+  applies_not_correlation _ _ _ rfl
+
+/-- a filter applies exactly to the non-correlation rules whose log source it covers and which it
+lists (by name or id), or to all of those if it says `any` -/
+theorem applies_iff (fl : LogSource) (fr : RuleList) (r : RuleInfo) :
+    applies fl fr r = true ↔
+      r.isCorrelation = false ∧ fl.covers r.logsource = true ∧
+      (fr = .any ∨ ∃ ks, fr = .refs ks ∧ ∃ k ∈ ks, k ∈ r.keys) :=
+  SigmaVerif.Lemmas.Filter.applies_iff fl fr r
+
+example : applies ⟨some "proc".toList, none, none⟩ (.refs ["r2".toList, "r1".toList])
+    ⟨false, ⟨some "proc".toList, some "win".toList, none⟩, ["r1".toList, "id1".toList]⟩ = true := by
+  decide
+example : applies ⟨some "proc".toList, none, none⟩ (.refs ["r2".toList])
+    ⟨false, ⟨some "proc".toList, some "win".toList, none⟩, ["r1".toList, "id1".toList]⟩ = false := by
+  decide
+
+/-- the filter's log source covers the rule's iff every attribute the filter specifies has the same
+value in the rule -/
+theorem covers_iff (f r : LogSource) :
+    f.covers r = true ↔
+      (∀ c, f.category = some c → r.category = some c) ∧
+      (∀ c, f.product = some c → r.product = some c) ∧
+      (∀ c, f.service = some c → r.service = some c) :=
+  SigmaVerif.Lemmas.Filter.covers_iff f r
+
+example : (⟨some "proc".toList, none, none⟩ : LogSource).covers
+    ⟨some "proc".toList, some "win".toList, none⟩ = true := by decide
+example : (⟨some "proc".toList, some "win".toList, none⟩ : LogSource).covers
+    ⟨some "proc".toList, none, none⟩ = false := by decide
+
+theorem covers_refl (f : LogSource) : f.covers f = true :=
+  SigmaVerif.Lemmas.Filter.covers_refl f
+
+example : (⟨some "a".toList, none, some "b".toList⟩ : LogSource).covers
+    ⟨some "a".toList, none, some "b".toList⟩ = true := covers_refl _
+
+theorem covers_trans (f g r : LogSource) (h1 : f.covers g = true) (h2 : g.covers r = true) :
+    f.covers r = true :=
+  SigmaVerif.Lemmas.Filter.covers_trans f g r h1 h2
+
+example : (⟨some "a".toList, none, none⟩ : LogSource).covers
+    ⟨some "a".toList, some "w".toList, some "s".toList⟩ = true :=
+  covers_trans _ ⟨some "a".toList, some "w".toList, none⟩ _ (by decide) (by decide)
+
+/-- a filter without log source attributes covers every rule -/
+theorem covers_empty (r : LogSource) : (⟨none, none, none⟩ : LogSource).covers r = true :=
+  SigmaVerif.Lemmas.Filter.covers_empty r
+
+example : (⟨none, none, none⟩ : LogSource).covers ⟨some "a".toList, none, none⟩ = true :=
+  covers_empty _
+
+/-! ## 2. The scan renames exactly the names
+
+`NamesOK e` (`Lemmas/Filter.lean`): every identifier and every selector pattern of `e` is one token
+of the scan (non-empty, first character in `startChars` — so not `-` —, all characters in
+`bodyChars`) and is not one of the `keywords`; identifiers are moreover not `them`.  Each conjunct
+is needed; the checked counterexamples are next to the definition (`-b` is read as `-` + `b`; a
+detection called `all` or `1` is not renamed; a detection called `them` becomes `<prefix>_*`).
+Nothing is required of the prefix: the scan never looks at its own output. -/
+
+/-- on the canonical spelling of a condition the scan puts the prefix in front of every identifier
+and every pattern (`them` becomes `<prefix>_*`) and changes nothing else -/
+theorem rewrite_pp (pre : Str) (e : E) (he : NamesOK e = true) (ctx : Nat) :
+    rewrite pre (pp ctx e) =
+      pp ctx (e.mapNames (fun n => pre ++ '_' :: n)
+        (fun p => if p = "them".toList then pre ++ "_*".toList else pre ++ '_' :: p)) :=
+  SigmaVerif.Lemmas.Filter.rewrite_pp pre e he ctx
+
+example : rewrite "_filt_abc".toList "(sel-1 or not all of f_*) and not 1 of them".toList =
+    "(_filt_abc_sel-1 or not all of _filt_abc_f_*) and not 1 of _filt_abc_*".toList := by
+  rw [show "(sel-1 or not all of f_*) and not 1 of them".toList = pp 2 (.and (.or (.id "sel-1".toList)
+      (.not (.sel .all "f_*".toList))) (.not (.sel .one "them".toList))) from by decide,
+    rewrite_pp _ _ (by decide)]
+  decide
+
+/-! ## 3. The boolean structure is untouched -/
+
+/-- renaming keeps the boolean skeleton of the condition (`mapNames` with constant functions erases
+all names) -/
+theorem rewrite_keeps_shape (f g : Str → Str) (e : E) :
+    (e.mapNames f g).mapNames (fun _ => []) (fun _ => []) =
+      e.mapNames (fun _ => []) (fun _ => []) :=
+  SigmaVerif.Lemmas.Filter.mapNames_shape f g e
+
+example : (E.not (.id "a".toList)).mapNames (fun _ => []) (fun _ => []) = .not (.id []) := rfl
+
+/-- the rewritten condition, evaluated over the injected (renamed) detections, means what the
+filter's condition means over the filter's own detections — provided no filter detection starts
+with `_` (finding D10c, below) and the prefix contains no `*` -/
+theorem rewrite_keeps_keywords (pre : Str) (hstar : '*' ∉ pre) (e : E) (dets : List Str)
+    (ρ ρ' : Str → Bool) (hρ : ∀ n, ρ' (pre ++ '_' :: n) = ρ n)
+    (hd : ∀ d ∈ dets, d.head? ≠ some '_') :
+    (e.mapNames (fun n => pre ++ '_' :: n)
+        (fun p => if p = "them".toList then pre ++ "_*".toList else pre ++ '_' :: p)).sem
+      (dets.map (fun d => pre ++ '_' :: d)) ρ' = e.sem dets ρ :=
+  SigmaVerif.Lemmas.Filter.sem_prefixed pre hstar dets ρ ρ' hρ e (fun _ => hd)
+
+/-- the hypotheses can be met: for every `ρ` there is a `ρ'` -/
+example (ρ : Str → Bool) (e : E) :
+    (e.mapNames (fun n => "_filt_abc".toList ++ '_' :: n)
+        (fun p => if p = "them".toList then "_filt_abc".toList ++ "_*".toList
+          else "_filt_abc".toList ++ '_' :: p)).sem
+      (["sel".toList, "f_1".toList].map (fun d => "_filt_abc".toList ++ '_' :: d))
+      (fun m => ρ (m.drop 10)) = e.sem ["sel".toList, "f_1".toList] ρ :=
+  rewrite_keeps_keywords "_filt_abc".toList (by decide) e _ ρ _ (fun n => by simp) (by decide)
+
+/-- sharper: the hypothesis on the detections is only needed when the condition contains the
+selector pattern `them` or a pattern that starts with `*` (`hasOpen`) -/
+theorem rewrite_keeps_keywords_open (pre : Str) (hstar : '*' ∉ pre) (e : E) (dets : List Str)
+    (ρ ρ' : Str → Bool) (hρ : ∀ n, ρ' (pre ++ '_' :: n) = ρ n)
+    (hd : hasOpen e = true → ∀ d ∈ dets, d.head? ≠ some '_') :
+    (e.mapNames (fun n => pre ++ '_' :: n)
+        (fun p => if p = "them".toList then pre ++ "_*".toList else pre ++ '_' :: p)).sem
+      (dets.map (fun d => pre ++ '_' :: d)) ρ' = e.sem dets ρ :=
+  SigmaVerif.Lemmas.Filter.sem_prefixed pre hstar dets ρ ρ' hρ e hd
+
+example (ρ : Str → Bool) :
+    ((E.and (.id "_u".toList) (.sel .all "s*".toList)).mapNames (fun n => "_f".toList ++ '_' :: n)
+        (fun p => if p = "them".toList then "_f".toList ++ "_*".toList
+          else "_f".toList ++ '_' :: p)).sem
+      (["_u".toList, "sel".toList].map (fun d => "_f".toList ++ '_' :: d))
+      (fun m => ρ (m.drop 3)) =
+    (E.and (.id "_u".toList) (.sel .all "s*".toList)).sem ["_u".toList, "sel".toList] ρ :=
+  rewrite_keeps_keywords_open "_f".toList (by decide) _ _ ρ _ (fun n => by simp)
+    (fun h => absurd h (by decide))
+
+/-- Finding D10c: without the hypothesis the law fails.  A filter with the detections `_u`, `sel`
+and the condition `1 of them`: `them` does not stand for `_u`, but the rewritten `_filt_abc_*` does
+stand for the injected `_filt_abc__u`. -/
+theorem rewrite_them_captures_underscore :
+    let pre := "_filt_abc".toList
+    let dets := ["_u".toList, "sel".toList]
+    let e := E.sel .one "them".toList
+    let ρ : Str → Bool := fun n => n == "_u".toList
+    let ρ' : Str → Bool := fun m => m == "_filt_abc__u".toList
+    rewrite pre (pp 0 e) = "1 of _filt_abc_*".toList ∧
+    (∀ n, ρ' (pre ++ '_' :: n) = ρ n) ∧
+    e.sem dets ρ = false ∧
+    (e.mapNames (fun n => pre ++ '_' :: n)
+        (fun p => if p = "them".toList then pre ++ "_*".toList else pre ++ '_' :: p)).sem
+      (dets.map (fun d => pre ++ '_' :: d)) ρ' = true := by
+  refine ⟨by decide, fun n => by simp, ?_, ?_⟩
+  · simp [E.sem, QW.quant, selects, globStar]
+  · simp [E.mapNames, E.sem, QW.quant, selects, globStar]
+
+/-! ## 4. No capture -/
+
+/-- a rule's own selector (pattern not starting with `_`, so also `them`) never stands for an
+injected filter detection -/
+theorem rule_selector_never_captures (pat name : Str) (hp : pat.head? ≠ some '_') (pre : Str)
+    (hpre : pre.head? = some '_') : selects pat (pre ++ '_' :: name) = false :=
+  SigmaVerif.Lemmas.Filter.rule_selector_never_captures pat name hp pre hpre
+
+example : selects "them".toList ("_filt_abc".toList ++ '_' :: "sel".toList) = false :=
+  rule_selector_never_captures _ _ (by decide) _ (by decide)
+example : selects "*".toList ("_filt_abc".toList ++ '_' :: "sel".toList) = false :=
+  rule_selector_never_captures _ _ (by decide) _ (by decide)
+
+/-- Finding D10b: a rule selector that does start with `_` can stand for an injected detection -/
+theorem rule_underscore_selector_captures :
+    selects "_*".toList "_filt_abc_sel".toList = true := by
+  simp [selects, globStar]
+
+/-- a rewritten filter pattern only stands for names that carry the prefix — so never for one of the
+rule's own detections, unless the rule has a detection that literally starts with the drawn prefix -/
+theorem filter_selector_never_captures (pre p n : Str) (hn : ¬ (pre ++ ['_']) <+: n)
+    (hstar : '*' ∉ pre) : selects (pre ++ '_' :: p) n = false :=
+  SigmaVerif.Lemmas.Filter.filter_selector_never_captures pre p n hn hstar
+
+example : selects ("_filt_abc".toList ++ '_' :: "*".toList) "_filt_abd_sel".toList = false :=
+  filter_selector_never_captures _ _ _ (by decide) (by decide)
 
 end SigmaVerif.Props.C11
